@@ -44,7 +44,11 @@ def h64(obj):
 
 def jsonable(x):
     """Best-effort conversion to something json.dumps accepts (for replay files)."""
-    if isinstance(x, (str, int, float, bool)) or x is None:
+    if isinstance(x, str):
+        if type(x) is not str:      # DOM Text / Token objects are str subclasses that drag the whole document along
+            x = x.encode('utf-8', 'surrogatepass').decode('utf-8', 'surrogatepass')
+        return x
+    if isinstance(x, (int, float, bool)) or x is None:
         return x
     if isinstance(x, (bytes, bytearray)):
         return {'__bytes__': bytes(x).hex()}
@@ -286,8 +290,11 @@ def bfs(expand_chunk, max_depth, rep, root=(), chunk=64, state_cap=None, on_leve
     capped = False
     r0, kids = expand_chunk([])        # convention: empty list -> returns root key as single child (root, key)
     rep.merge(r0)
+    frontier = []
     for h, k in kids:
-        seen.add(k)
+        if k not in seen:
+            seen.add(k)
+            frontier.append(tuple(h))
     for depth in range(max_depth):
         if not frontier:
             break
